@@ -14,10 +14,10 @@ MC = os.path.join(SPECDIR, "MC_Mvcc.tla")
 KINDS = ["ls", "as", "gt", "ex", "no", "ni", "nc", "ec", "fcw"]
 
 
-def trace_cfg(path, devall=False):
+def trace_cfg(path, devall=False, copyonly=False):
     return V.write_cfg(path, spec="TSpec", constants={
         "Sess": V.tla_strset(["s1", "s2", "s3"]), "MaxN": 10, "MaxE": 10,
-        "DevAll": "TRUE" if devall else "FALSE"}, postcondition="Accepted")
+        "DevAll": "TRUE" if devall else "FALSE", "CopyOnly": "TRUE" if copyonly else "FALSE"}, postcondition="Accepted")
 
 
 def parse_devs(out):
